@@ -25,7 +25,8 @@ Fixpoint fs_get (fs : fsys) (p : zs) : option fentry :=
   match fs with [] => None | (k, e) :: r => if zs_eqb k p then Some e else fs_get r p end.
 
 (* ---------- native / core registrations (C15) ---------- *)
-Record natives := { n_registry : list zs; n_global : list zs; n_core : list zs }.
+(* n_loader_reqs: what the Go loader of a registered name requires while it runs (re-entrant loaders; none for most) *)
+Record natives := { n_registry : list zs; n_global : list zs; n_core : list zs; n_loader_reqs : list (zs * list zs) }.
 Inductive nkind := NRegistry | NGlobal | NCore.
 
 Fixpoint mem_zs (x : zs) (l : list zs) : bool := match l with [] => false | y :: r => zs_eqb x y || mem_zs x r end.
@@ -220,6 +221,29 @@ Fixpoint run_lazies (st : rstate) (def_file : zs) (reqs : list zs) : rstate * bo
 
 Definition bump_counter (st : rstate) (file : zs) : rstate := with_store st (store st) (bump (counters st) file).
 
+(* the loader of a native / core module is Go code that may itself call require(): it runs after the module object has been
+   created and cached under its name AND its alias (loadNative writes both before calling the loader), from a script whose
+   directory is "." *)
+Definition loader_file : zs := [95;95;110;97;116;105;118;101;95;95;46;106;115].     (* "__native__.js" *)
+
+Fixpoint assoc_reqs (l : list (zs * list zs)) (k : zs) : list zs :=
+  match l with [] => [] | (k', v) :: r => if zs_eqb k k' then v else assoc_reqs r k end.
+
+Definition registered_name (st : rstate) (m : nat) : zs :=
+  match nth_error (store st) m with Some r => match m_owner r with ONative n _ => n | OFile _ => [] end | None => [] end.
+
+Definition load_native_run (st : rstate) (name : zs) : rstate * res :=
+  match cache_get (native_cache st) name with
+  | Some m => (st, ROk m)
+  | None =>
+    let '(st1, r) := load_native st name in
+    match r with
+    | ROk m => let '(st2, oof) := run_lazies st1 loader_file (assoc_reqs (n_loader_reqs nat_reg) (registered_name st1 m)) in
+               (st2, if oof then RFuel else ROk m)
+    | other => (st1, other)
+    end
+  end.
+
 (* the body of a module: a nested require that fails un-caught ends the evaluation with that error *)
 Fixpoint run_body (st : rstate) (m : nat) (file : zs) (prog : list instr) : rstate * res :=
   match prog with
@@ -313,7 +337,7 @@ Definition resolve (st : rstate) (curdir : path) (req : zs) : rstate * res :=
       end
     end
   else
-    let '(st0, rn) := load_native st req in
+    let '(st0, rn) := load_native_run st req in
     match rn with
     | ROk m => (st0, ROk m)
     | RNone =>
